@@ -639,6 +639,56 @@ for _pid in ("C01", "C08"):
     PROPERTIES[_pid]["rules"] += [("UNITDTYPE", lambda ctx: rule_unitdtype(ctx.lib))]
     PROPERTIES[_pid]["explanation"] += " (UNITDTYPE) The checker requires the defining expression of a derived unit to have a dimension type (the VM pops a quantity for it)."
 
+from prec import rule_operands  # noqa: E402
+
+PROPERTIES["C15"]["rules"] += [("OPERANDS", lambda ctx: rule_operands(ctx.lib))]
+PROPERTIES["C15"]["explanation"] += " (OPERANDS) In pretty_print_binop a left operand is bare only for kinds parsed at the same or a tighter level, a right operand only for strictly tighter kinds (bare sets read off the matches! closures, operator depths from the parser's level chain); objects of field accesses and callees go through with_parens."
+
+from semrules import rule_semrules  # noqa: E402
+
+SEM_WITNESS = {
+    "LASTRES:compile_expression:GetLastResult:any-depth": "`1 m`, `fn f() = ans`, `\"hello\"`, `print(f() + 1 m)` panics in the VM (`Expected quantity to be on the top of the stack`)",
+    "FNREF:vm:CallCallable:late-binding": "`fn inc(x)=x+1`, `let saved=inc`, `fn call_inc(x)=inc(x)`, `fn inc(x)=x+100`: call_inc(1) = 2, saved(1) = 101",
+    "UNITENV:elaborate_expression:UnitIdentifier:shadowable-lookup": "`fn f1(m: Scalar) -> Scalar = 3 km` is accepted and f1(1) = 3 km",
+    "POLYLIT:literals:checker-vs-conversion": "`inf + 1 m`, `1 m + NaN`, `inf > 1 m` are accepted and fail at run time",
+    "FMTSPEC:vm:JoinString:unbounded": "`\"{1:.65536}\"` panics inside strfmt, `\"{1:99999999999}\"` does not terminate",
+    "FOREIGNDECL:add_foreign_function:trusted": "`numbat --no-prelude -e 'fn is_nan(x: Bool, y: Bool) -> Bool'` panics (`assertion failed: ff.arity == arity`)",
+    "BATCHSTATE:ffi:typechecker-at-end-of-input": "one file `inspect(1 m^2/s^5)`, `unit zork = m^2/s^5`, `dimension Foo = Length^2 / Time^5` prints `[Foo]` / `1 zork`; line by line `[Length² / Time⁵]` / `1 m²/s⁵`",
+    "TYPENAMES:to_readable_type:or": "`fn f(x) = x + 1 J` is echoed as `fn f(x: Energy or Torque) -> Energy or Torque`",
+    "TYPENAMES:instantiate_for_printing:fresh-names": "`dimension A`, `unit a: A`, `fn f(x) = x*a` is printed as `fn f<A: Dim>(x: A) -> A²`",
+    "STRUCTSUBST:type_from_annotation:sequential": "findings/sem_witnesses.nbt: `hh(2 s)` has type Length and value 2 s",
+}
+
+
+def sem(*prefixes):
+    def run(ctx):
+        if not hasattr(ctx, "_sem"):
+            ctx._sem = rule_semrules(ctx.lib, SEM_WITNESS)
+        from core import RuleOut
+
+        o = RuleOut("SEM", ctx._sem.clause)
+        o.findings = [f for f in ctx._sem.findings if any(f.key.startswith("SEM:" + p) for p in prefixes)]
+        o.errors = list(ctx._sem.errors)
+        o.analysed = {"sibling_rules": len(o.findings)}
+        return o
+
+    return run
+
+
+_SEM_MAP = {
+    "C01": ("LASTRES", "FNREF", "UNITENV", "POLYLIT", "STRUCTSUBST"),
+    "C02": ("STRUCTSUBST",),
+    "C07": ("FNREF", "BATCHSTATE"),
+    "C08": ("LASTRES", "FMTSPEC", "FOREIGNDECL"),
+    "C09": ("LASTRES", "FNREF"),
+    "C13": ("UNITENV",),
+    "C15": ("TYPENAMES",),
+    "C16": ("TYPENAMES",),
+}
+for _pid, _pref in _SEM_MAP.items():
+    PROPERTIES[_pid]["rules"] += [("SEM", sem(*_pref))]
+    PROPERTIES[_pid]["explanation"] += " (SEM: %s) Design-level sibling rules whose violations on this tree are known findings with witnesses (see DESIGN 5′)." % ", ".join(_pref)
+
 NOT_APPLICABLE = {
     "C03": "numerical agreement of conversion factors over 500 units is a statement about run-time values; no structural clause is a necessary condition that is not already covered under C04/C11/C12 (static analysis cannot bound the arithmetic)",
     "C14": "a statement about the decimal rendering of every f64 under every format setting; the code delegates to pretty_dtoa/num_format and no structural clause of Number::pretty_print_with_dtoa_config can be decided without evaluating it",
